@@ -117,6 +117,20 @@ def check(ctx):
                 ctx.ok("C19.allowed-cache", f, "write to cache %s: %s" % (w.attr, ALLOWED[w.attr]), w.node)
     ctx.extra["write_sites_examined"] = n_sites
 
+    # the block's constraint objects are part of the block: no library call may write to them either (geometry, k, rotation
+    # state ... are set while the block is built; constructors are not reachable from the entry points)
+    cbase = repo.cls("base_constraint:Constraint")
+    cfam = {cbase.fq} | {c_.fq for c_ in cbase.all_subclasses()}
+    n_cw = 0
+    for fq, (f, e) in sorted(reach.items()):
+        for w in ef.writes(f):
+            if w.cls is not None and w.cls.fq in cfam and w.root_kind != "fresh":
+                n_cw += 1
+                path = " -> ".join(cg.path_to(reach, f.fq))
+                ctx.bad("C19.frame", f, w.text(), "library call can write state of a constraint object of the block: %s (class %s); path: %s -- a later call on the same block "
+                        "starts from what the earlier call left behind" % (w.text(), w.cls.name, path), w.node)
+    if not n_cw:
+        ctx.ok("C19.frame", cbase, "no reachable function writes to a constraint object (%d constraint classes)" % len(cfam))
     offenders = list(offending_writes(ctx, cg, ef, reach, fam))
     for f, w in offenders:
         path = " -> ".join(cg.path_to(reach, f.fq))
@@ -146,6 +160,28 @@ def check(ctx):
                     if pi < len(params) and params[pi] in mutating[callee.fq]:
                         ctx.bad("C19.frame", f, "%s(%s)" % (callee.qual, d),
                                 "passes %s to %s, which mutates that parameter in place" % (d, callee.fq), ed.node)
+                # an attribute of a constraint object (directly, or through a local that a method of the object handed out) passed to a
+                # function that mutates that parameter
+                if f.cls is not None and f.cls.fq in cfam and not isinstance(f.node, ast.Lambda) and f.node.args.args:
+                    sn_ = f.node.args.args[0].arg
+                    held_ = None
+                    if d and d.startswith(sn_ + ".") and d.count(".") == 1:
+                        held_ = d
+                    elif isinstance(a, ast.Name):
+                        for st_ in ast.walk(f.node):
+                            if isinstance(st_, ast.Assign) and len(st_.targets) == 1 and isinstance(st_.targets[0], ast.Name) and st_.targets[0].id == a.id and \
+                                    isinstance(st_.value, ast.Call) and isinstance(st_.value.func, ast.Attribute) and dotted(st_.value.func.value) == sn_:
+                                mm_ = f.cls.lookup(st_.value.func.attr)
+                                if mm_ is not None and not isinstance(mm_.node, ast.Lambda) and mm_.node.args.args:
+                                    rets_ = [x for x in ast.walk(mm_.node) if isinstance(x, ast.Return) and x.value is not None]
+                                    s2_ = mm_.node.args.args[0].arg
+                                    if len(rets_) == 1 and dotted(rets_[0].value) and dotted(rets_[0].value).startswith(s2_ + ".") and dotted(rets_[0].value).count(".") == 1:
+                                        held_ = sn_ + "." + dotted(rets_[0].value).split(".")[1]
+                    pi = i + offset
+                    if held_ and pi < len(params) and params[pi] in mutating[callee.fq]:
+                        ctx.bad("C19.frame", f, "%s(%s)" % (callee.qual, held_),
+                                "passes %s (state of the constraint object) to %s, which mutates that parameter in place: the state survives the call and the next "
+                                "library call on the same block starts from it" % (held_, callee.fq), ed.node)
     ctx.check(True, "C19.frame", entries[0], "", "%d write sites in %d reachable functions examined; "
               "%d write block design state" % (n_sites, len(reach), len(offenders)), "")
 
